@@ -67,8 +67,23 @@ def mock_case(draw, mode='mixed'):
     stack = []
     nchecks = draw(st.integers(1, 4))
     kinds = []
+    ctx_related = [0]
 
     def unlisted_pair():
+        if pairs and draw(st.integers(0, 2)) == 0:
+            # near miss: the LISTED signature of a pair, offered for a key that is only related to the listed one (its x-only form, the same x with a
+            # prefix byte, the other parity, one byte shorter / longer) - "exactly the listed pairs" means byte-for-byte
+            s0, k0 = pairs[draw(st.integers(0, len(pairs) - 1))]
+            rel = []
+            if len(k0) == 33:
+                rel += [k0[1:], bytes([k0[0] ^ 1]) + k0[1:]]
+            if len(k0) == 32:
+                rel += [b'\x02' + k0, b'\x03' + k0]
+            rel += [k0[:-1], k0 + b'\x00']
+            rel = [k for k in rel if k not in listed_keys and (sv != R.TAPSCRIPT or len(k) in (32, 33))]
+            if rel:
+                ctx_related[0] += 1
+                return s0, draw(st.sampled_from(rel))
         for _ in range(5):
             k_ = draw(mock_keys)
             if k_ not in listed_keys:
